@@ -146,6 +146,14 @@ class AbstractSourceSinkGraph(nx.DiGraph):
                 raise ValueError(
                     f"Edge ({u},{v}) has negative flow value {data[flow_attr]}. All flow values must be >=0."
                 )
+            if not (data[flow_attr] < float("inf")):
+                # (NaN compares False with everything, so it passes the test above; an infinite value makes the greedy peeling loop for ever)
+                utils.logger.error(
+                    f"Edge ({u},{v}) has the non-finite flow value {data[flow_attr]}. All flow values must be finite numbers."
+                )
+                raise ValueError(
+                    f"Edge ({u},{v}) has the non-finite flow value {data[flow_attr]}. All flow values must be finite numbers."
+                )
             w_max = max(w_max, data[flow_attr])
         return w_max
 
